@@ -55,7 +55,12 @@ def main(argv=None):
         mod = importlib.import_module(f"pfsa.rules.{prop.lower()}")
         ctx = Ctx(tier)
         run = Run(prop, tier, LEVELS.get(prop, "other"), (mod.__doc__ or "").strip())
-        mod.check(ctx, run)
+        run.prog = ctx.prog
+        try:
+            mod.check(ctx, run)
+        finally:
+            run.functions |= {q for q in ctx.interp.visited if q in ctx.prog.functions}
+            run.call_sites = max(run.call_sites, ctx.interp.n_calls)
         code = run.finish()
         n_ok = sum(1 for o in run.obligations if o[2])
         print(f"{prop} {tier}: {len(run.obligations)} obligations, {n_ok} discharged, {len(run.findings)} findings, {run and round(__import__('time').time()-run.t0,2)} s")
